@@ -215,14 +215,19 @@ impl V0 {
                 );
             }
 
-            CM::ProtocolSwitchRequest(_)
+            msg @ (CM::ProtocolSwitchRequest(_)
             | CM::CGet(_)
             | CM::CSet(_)
             | CM::Transform(_)
             | CM::Lock(_)
             | CM::AcquireLock(_)
-            | CM::ReleaseLock(_) => {
-                return Err(WorterbuchError::NotImplemented);
+            | CM::ReleaseLock(_)) => {
+                // not available in this protocol version: answer the request, keep the session
+                self.handle_store_error(
+                    WorterbuchError::NotImplemented,
+                    msg.transaction_id().unwrap_or(0),
+                )
+                .await?;
             }
         };
         Ok(())
